@@ -227,7 +227,7 @@ class C17(Spec):
                 if not m or m.group(1) != eff("lib_name"):
                     what = f"nanobind module name {m.group(1) if m else None}, documented precedence gives {eff('lib_name')}"
                 obs = m.group(1) if m else None
-            if what and viol < 2:
+            if what and len(ctx.violations) < 2:
                 viol += 1
                 ctx.violation("e2e:" + target, {"case": case, "what": what, "lib_rs": src, "config_toml": toml, "cli": cli}, True)
             # model agreement on the effective shared values
@@ -248,13 +248,15 @@ class C17(Spec):
                     fp = os.path.join(root, fn)
                     t[os.path.relpath(fp, path)] = hashlib.sha1(open(fp, "rb").read()).hexdigest()
             return t
-        demo_src = ("#[diplomat::bridge]\nmod ffi {\n    #[diplomat::opaque]\n    pub struct O(pub i32);\n    impl O {\n"
+        demo_src = ("#[diplomat::bridge]\nmod ffi {\n    pub struct Pair { pub a: u8, pub b: u32 }\n    #[diplomat::opaque]\n    pub struct O(pub i32);\n    impl O {\n"
+                    "        pub fn take(&self, p: Pair) -> u32 { p.a as u32 + p.b }\n"
                     "        #[diplomat::attr(auto, constructor)]\n        pub fn new(v: i32) -> Box<O> { Box::new(O(v)) }\n"
                     "        #[diplomat::demo(default_constructor)]\n        pub fn get(&self, w: &mut diplomat_runtime::DiplomatWrite) { use core::fmt::Write; let _ = write!(w, \"{}\", self.0); }\n    }\n}\n")
         settings = [("demo_gen", "demo_gen", "module_name", "mymod", "othermod"), ("demo_gen", "demo_gen", "relative_js_path", "../lib", "../other"),
-                    ("js", "js", "abi", "spec", "legacy"), ("kotlin", "kotlin", "domain", "a.org", "b.org"), ("nanobind", None, "lib_name", "alib", "blib")]
+                    ("js", "js", "abi", "spec", "legacy"), ("demo_gen", "js", "abi", "spec", "legacy"),
+                    ("kotlin", "kotlin", "domain", "a.org", "b.org"), ("nanobind", None, "lib_name", "alib", "blib")]
         if ctx.quick():
-            settings = settings[:3] + [rng.choice(settings[3:])]
+            settings = settings[:4] + [rng.choice(settings[4:])]
         def run_placed(tag, target, placed):
             # placed: {"file": (scope, key, value) | None, "cli": .., "attr": ..}
             base_file = [(None, "lib_name", "baselib")] + ([("kotlin", "domain", "base.org")] if target == "kotlin" and not any(v and v[1] == "domain" for v in placed.values()) else [])
@@ -279,6 +281,16 @@ class C17(Spec):
             shutil.rmtree(out, ignore_errors=True)
             return t, {"lib_rs": attrs + demo_src, "config_toml": toml, "cli": cli}
         nplace = 0
+        # the JS bindings demo_gen writes next to the demo (no module configured) are the JS backend's output under the same settings
+        for name, placed in (("cli", {"cli": ("js", "abi", "spec")}), ("file", {"file": ("js", "abi", "spec")}), ("attr", {"attr": ("js", "abi", "spec")}), ("none", {})):
+            direct, info = run_placed("njs_" + name, "js", placed)
+            nested, _ = run_placed("ndg_" + name, "demo_gen", placed)
+            nested_js = {k[len("js/"):]: v for k, v in nested.items() if k.startswith("js/")}
+            nplace += 2; ran += 2
+            if "__failed__" not in direct and "__failed__" not in nested and nested_js != direct and len(ctx.violations) < 3:
+                diff = sorted(set(nested_js) ^ set(direct))[:6] + sorted(k for k in set(nested_js) & set(direct) if nested_js[k] != direct[k])[:6]
+                ctx.violation("e2e:demo-gen-nested-js", dict(info, what=f"with js.abi=spec given through [{name}], the js/ tree written by `diplomat-tool demo_gen` differs from what "
+                                                            f"`diplomat-tool js` writes for the same sources and settings (differing files: {diff})"), True)
         for target, sc, key, v1, v2 in settings:
             ref, _ = run_placed("ref", target, {"cli": (sc, key, v1)})
             combos = [("file", {"file": (sc, key, v1)}), ("attr", {"attr": (sc, key, v1)}),
@@ -287,14 +299,14 @@ class C17(Spec):
             for name, placed in combos:
                 got, info = run_placed(name.replace("<", "_"), target, placed)
                 nplace += 1; ran += 1
-                if got != ref and viol < 3:
+                if got != ref and len(ctx.violations) < 3:
                     viol += 1
                     diff = sorted(set(got) ^ set(ref))[:6] + sorted(k for k in set(got) & set(ref) if got[k] != ref[k])[:6]
                     ctx.violation(f"e2e:placement:{target}:{key}", dict(info, target=target, what=
                         f"{(sc + '.') if sc else ''}{key} = {v1!r} given as [{name}] produces a different {target} output than the same value given with --config alone "
                         f"(differing files: {diff})"), True)
         fails = run_shards(self.prop, self.header, goals) if goals else []
-        if fails and viol == 0:
+        if fails and not ctx.violations:
             ctx.violation("e2e:corr", {"broken": "end-to-end correspondence goal: " + goals[fails[0]][:400]}, False)
         return {"obligations": len(goals), "discharged": len(goals) - len(fails), "e2e_cli_runs": ran, "placement_runs": nplace}
 
